@@ -67,14 +67,18 @@ def dstep (s : St) (w : List String) : St × String :=
     let r := ExoVerif.ConsKeys.step s (.undelegate (parseNat! op) rc)
     fin (r.1, if r.1 == Out.ok then { r.2 with nRecs := max s.nRecs (rc + 1) } else r.2)
   | ["ck.slashprobe", key, staked] =>
-    -- slash / jail by consensus address in a discarded cache context: who is hit (state unchanged)
+    -- slash / jail / ValidatorByConsAddr by consensus address in a discarded cache context: who is hit (state unchanged)
     let key := parseNat! key
     let st : List Nat := if staked == "-" then [] else (staked.splitOn ",").map (fun x => parseNat! x)
     let dash (l : List Nat) : String := if l.isEmpty then "-" else showNats l
-    (s, dash (slashedBy s key (fun op => st.contains op)) ++ "/" ++ dash (jailTarget s key).toList)
+    (s, dash (slashedBy s key (fun op => st.contains op)) ++ "/" ++ dash (jailTarget s key).toList
+        ++ "/" ++ dash (validatorTarget s key).toList)
   | ["ck.param", n] => fin (ExoVerif.ConsKeys.step s (.setUnbonding (parseInt! n)))
   | ["ck.begin", e] => fin (ExoVerif.ConsKeys.step s (.epochEnd (parseInt! e)))
   | ["ck.end", m, pw] => fin (ExoVerif.ConsKeys.step s (.endBlock (parsePowers pw) (parseNat! m)))
+  -- directed runs outside the model (dom_conskeys_gate.go: real evidence path, HistoricalEntries boundary):
+  -- the observation is part of the op line, the state is untouched
+  | w :: _ => if w.startsWith "ckgate." || w.startsWith "ckhist." then (s, "ok") else (s, "bad-op")
   | _ => (s, "bad-op")
 
 def main : IO Unit := runDriver (St.init 0 0 0 0) dstep
